@@ -52,6 +52,8 @@ def mutate(rnd, case):
     kind = rnd.choice(kinds)
     c = rnd.choice(cs)
     w = canon.fs(gen.weight(rnd, "int"))
+    if rnd.random() < 0.15:
+        w = "0"  # the limits bind every ballot of the profile, also one that carries no weight
     if kind == "over_L":
         s = {c: L + (EPS if rnd.random() < 0.6 else rnd.choice([1, 10]))}
         if k is not None and L + EPS > k:
